@@ -28,6 +28,13 @@ def pack_inputs(tier, rng, algos_online=("ff", "bf"), algos_sorted=("ffd", "bfd"
         n = rng.randint(5, 12)
         B = rng.choice([20, 50, 100])
         out.append({"values": [rng.randint(0 if zero_ok else 1, B) for _ in range(n)], "B": B})
+    # many open bins (code paths that only start beyond a dozen bins): one early roomy bin, 17-20 nearly full ones, then a small item
+    for B in (10,):
+        for nbig in ((17,) if tier == "quick" else (17, 18, 20, 33)):
+            for a in range(1, B, 2 if tier == "quick" else 1):
+                for b in range(1, B, 3 if tier == "quick" else 1):
+                    out.append({"values": [a] + [B - 1] * nbig + [b], "B": B})
+                    out.append({"values": [B - 1] * nbig + [a, b], "B": B})
     return out
 
 
